@@ -11,6 +11,7 @@ const (
 
 type InstSpec struct {
 	ID               string        `json:"id"`
+	ConfigID         string        `json:"config_id,omitempty"` // ElectionConfig.InstanceID when it differs from the harness name (a restarted process re-using its id while the old one still runs)
 	Group            string        `json:"group,omitempty"`
 	Priority         int           `json:"prio,omitempty"`
 	Takeover         bool          `json:"takeover,omitempty"`
@@ -92,6 +93,19 @@ type FaultSpec struct {
 	Inst  string `json:"inst"`
 	FromN int    `json:"from_n"`
 	Mode  string `json:"mode"`
+	// WritesOnly: reads (Get) keep being answered normally - a store that has lost its
+	// write quorum but still serves reads
+	WritesOnly bool `json:"writes_only,omitempty"`
+	// Once: only the FromN-th heartbeat Update is affected, everything else is answered
+	Once bool `json:"once,omitempty"`
+}
+
+// cfgID: the InstanceID the election of harness instance id is configured with.
+func (s *Scenario) cfgID(id string) string {
+	if sp := s.inst(id); sp != nil && sp.ConfigID != "" {
+		return sp.ConfigID
+	}
+	return id
 }
 
 func (s *Scenario) inst(id string) *InstSpec {
